@@ -31,7 +31,7 @@ CHECKS = [
     },
     {
         "property_id": "C05",
-        "text": "seeded operator programs executed by the real interpreter, split into Contents arrays at tape-chosen cuts under chunk schedules, with operand faults, compared glyph by glyph with an exact-rational reference of ISO 32000-1 9.3-9.4",
+        "text": "seeded operator programs executed by the real interpreter, split into Contents arrays at tape-chosen cuts under chunk schedules, with operand faults, compared glyph by glyph with an exact-rational reference of ISO 32000-1 9.3-9.4; one CID metric table (/W, /W2) in two spellings compared between two runs",
         "note": "sampling; dyadic operands so that float arithmetic is exact; forms self-contained",
         "technique": DS + "program/split/chunk-schedule search with operand fault injection against an exact rational text-state machine",
     },
@@ -62,7 +62,7 @@ CHECKS = [
     },
     {
         "property_id": "C14",
-        "text": "all byte strings up to a length bound over a lexical-class alphabet plus seeded longer strings, each tokenised under every constant buffer size 1..k and the default, under a step clock; totality, progress, position and sequence equality checked",
+        "text": "all byte strings up to a length bound over a lexical-class alphabet plus seeded longer strings, each tokenised under every constant buffer size 1..k and the default, under a step clock and a CPU-time watchdog, also with one tokenizer object used again after seek(); totality, progress, position and sequence equality checked",
         "note": "exhaustive only up to the stated length over the class alphabet; otherwise sampling",
         "technique": DS + "chunk-schedule (read-buffer size) sweep under a simulated step clock, cross-schedule equality oracle",
     },
@@ -86,7 +86,7 @@ CHECKS = [
     },
     {
         "property_id": "C20",
-        "text": "seeded operation histories (add/extend/remove/find/iterate/len/contains) on utils.Plane checked after every step against a list model; affine laws over exact rationals on the same runs",
+        "text": "seeded operation histories (add/extend/remove/find/iterate/len/contains) on utils.Plane checked after every step against a list model, with queries abandoned half-read and two queries read alternately under a tape-chosen schedule; affine laws over exact rationals on the same runs",
         "note": "sampling; the affine laws are pure and not what the simulation decides",
         "technique": DS + "seeded operation histories against a sequential reference model (store versus list)",
     },
